@@ -480,6 +480,40 @@ func (p *Pilot) CreateDistribution() {
 	}
 }
 
+// SameBlockCreateRunCreate: one distributor, two authorised runners, an overlapping recipient, all in one block
+// (the distribution name is <height>_<distributor>; uniqueness is on name+type+runner): create(R1, [X,…]);
+// run(R1) → X's record COMPLETED; create(R2, [X,…]) → a second, PENDING record with the same name, type and
+// recipient.  Both records are legitimate state that an export must carry.
+func (p *Pilot) SameBlockCreateRunCreate() {
+	d := p.W.Users[p.R.Intn(len(p.W.Users)-1)]
+	r1 := p.W.Users[p.R.Intn(len(p.W.Users)-1)]
+	r2 := p.W.Users[p.R.Intn(len(p.W.Users)-1)]
+	for r2 == r1 {
+		r2 = p.W.Users[p.R.Intn(len(p.W.Users)-1)]
+	}
+	x := p.W.Users[p.R.Intn(len(p.W.Users)-1)] // never the blocked user: the first payment must complete
+	typ := disptypes.DistributionType_DISTRIBUTION_TYPE_AIRDROP
+	outs := func() []banktypes.Output {
+		o := []banktypes.Output{banktypes.NewOutput(x.Addr, sdk.NewCoins(coin("rowan", new(big.Int).Mul(big.NewInt(int64(1+p.R.Intn(50))), pow10(18)))))}
+		for i := p.R.Intn(3); i > 0; i-- {
+			o = append(o, banktypes.NewOutput(p.W.Users[p.R.Intn(len(p.W.Users)-1)].Addr, sdk.NewCoins(coin("rowan", new(big.Int).Mul(big.NewInt(int64(1+p.R.Intn(50))), pow10(18))))))
+		}
+		return o
+	}
+	name := fmt.Sprintf("%d_%s", p.Height(), d.Addr.String())
+	m1 := disptypes.NewMsgCreateDistribution(d.Addr, typ, outs(), r1.Addr.String())
+	if r := p.Tx("disp.create.twice.first", d, &m1); r.Code != 0 {
+		return
+	}
+	p.dists = append(p.dists, distRef{name: name, typ: typ, runner: r1})
+	m2 := disptypes.NewMsgRunDistribution(r1.Addr.String(), name, typ, 20)
+	p.Tx("disp.run.between", r1, &m2)
+	m3 := disptypes.NewMsgCreateDistribution(d.Addr, typ, outs(), r2.Addr.String())
+	if r := p.Tx("disp.create.twice.second", d, &m3); r.Code == 0 {
+		p.dists = append(p.dists, distRef{name: name, typ: typ, runner: r2})
+	}
+}
+
 func (p *Pilot) RunDistribution() {
 	if len(p.dists) == 0 {
 		return
